@@ -204,7 +204,7 @@ func runC20(c *Ctx) {
 					n++
 					switch {
 					case vConstInt(1)(inc.Val) && isConst(inc.Val):
-						if !edgeHasFact(inc.Pred, inc.Blk, cmpFact(existing, token.EQL, vNil(), "")) {
+						if !inc.hasFact(cmpFact(existing, token.EQL, vNil(), "")) {
 							okAll = false
 						}
 					case vPlusOne(vFieldLoad("Lease.Generation", existing))(inc.Val):
